@@ -23,7 +23,7 @@ theorem fixed_offset_verdict (env : Env) (n : Nat) (k : Int) (cond : Expr) (h : 
 example : onlyAt 0 5 (.and (.foundAt (.id 0) (.int 5)) (.cmp .gt (.count (.id 1)) (.int 0))) = true ∧
     onlyAt 0 5 (.or (.foundAt (.id 0) (.int 5)) (.foundAt (.id 0) (.int 6))) = false ∧
     onlyAt 0 5 (.forOf .any (.int 0) [0, 1] (.foundAt .cur (.int 5))) = true ∧
-    (restrictAt ⟨[[(0, 2), (5, 2)], [(1, 1)]], [], 9, [], [], []⟩ 0 5).strs = [[(5, 2)], [(1, 1)]] := by decide
+    (restrictAt ⟨[[(0, 2), (5, 2)], [(1, 1)]], [], 9, [], [], [], default⟩ 0 5).strs = [[(5, 2)], [(1, 1)]] := by decide
 
 /-- **single_match_sound** (STRING_FLAGS_SINGLE_MATCH with fast mode): if string `n` is only tested for presence
     (`$n`, membership in a plain `N of` / `P% of` set, `$` in the body of a `for..of`), then keeping only its first
@@ -42,7 +42,7 @@ theorem single_match_verdict (env : Env) (n : Nat) (cond : Expr) (h : onlyFound 
 example : onlyFound 0 (.and (.found (.id 0)) (.ofStr .all (.int 0) [0, 1])) = true ∧
     onlyFound 0 (.forOf .any (.int 0) [0, 1] (.and (.found .cur) (.cmp .lt (.filesize) (.int 9)))) = true ∧
     onlyFound 0 (.cmp .eq (.count (.id 0)) (.int 2)) = false ∧
-    (firstOnly ⟨[[(0, 2), (5, 2)], [(1, 1)]], [], 9, [], [], []⟩ 0).strs = [[(0, 2)], [(1, 1)]] := by decide
+    (firstOnly ⟨[[(0, 2), (5, 2)], [(1, 1)]], [], 9, [], [], [], default⟩ 0).strs = [[(0, 2)], [(1, 1)]] := by decide
 
 /-- **needs_match_sound** (`required_strings > 0`, exec.c OP_INIT_RULE skipping the rule): a condition that `needsMatch`
     accepts is false — in every loop context, so in particular as a rule condition — whenever no string of the rule
@@ -61,7 +61,7 @@ example : needsMatch (.and (.cmp .lt .filesize (.int 9)) (.or (.found (.id 0)) (
     needsMatch (.or (.found (.id 0)) (.cmp .lt .filesize (.int 9))) = false ∧
     needsMatch (.not (.found (.id 0))) = false ∧ needsMatch (.ofStr .none (.int 0) [0]) = false := by decide
 
-example : (∀ n, (⟨[[], []], [], 3, [], [], []⟩ : Env).strs.getD n [] = []) := by
+example : (∀ n, (⟨[[], []], [], 3, [], [], [], default⟩ : Env).strs.getD n [] = []) := by
   intro n
   match n with
   | 0 => rfl
